@@ -91,11 +91,11 @@ Proof.
   revert s tr s' a. induction ids as [|i r IH]; intros s tr s' a H; cbn [bp_walk] in H.
   - injection H as <- <- _. reflexivity.
   - unfold bind at 1 in H. cbn [get] in H.
-    destruct (sc_obs (get_sc s i)).
+    destruct (sc_obs (get_sc _ i)).
     + unfold bind in H. cbn [remove_lst] in H.
       destruct (bp_walk r p size _) as [[tr2 s2] o2] eqn:E. destruct o2; try discriminate.
       injection H as <- <- _. cbn [app]. eapply IH. exact E.
-    + destruct (exceeds (get_sc s i) size).
+    + destruct (exceeds (get_sc _ i) size).
       * unfold bind in H. cbn [set_sc] in H.
         destruct (consume _ _) as [[trc sc_] oc]. destruct oc; discriminate.
       * unfold bind in H. cbn [set_sc] in H.
@@ -115,7 +115,7 @@ Qed.
 Lemma til_dec_prim abort p pa : tiles (dec_prim abort p pa).
 Proof.
   intros s tr s' a H. unfold dec_prim in H.
-  unfold bind at 1 in H. unfold bytes_parsed, bind at 1 in H. cbn [get] in H.
+  unfold bind at 1 in H. unfold bytes_parsed, bind at 1 in H. cbn [get lst] in H.
   destruct (bp_walk (lst s) pa (pwidth p) s) as [[tr1 s1] o1] eqn:E1.
   destruct o1 as [u|e| |k|]; try discriminate.
   pose proof (bp_walk_quiet _ _ _ _ _ _ _ E1) as ->. cbn [app] in H.
@@ -148,9 +148,9 @@ Qed.
 Lemma til_assert_done abort i : tiles (assert_done abort i).
 Proof.
   intros s tr s' a H. unfold assert_done in H. unfold bind at 1 in H. cbn [get] in H.
-  destruct (sc_max (get_sc s i)) as [mx|]; [|discriminate].
+  destruct (sc_max (get_sc _ i)) as [mx|]; [|discriminate].
   unfold bind at 1 in H. cbn [set_sc] in H.
-  destruct (sc_already (get_sc s i) =? mx).
+  destruct (sc_already (get_sc _ i) =? mx).
   - cbn in H. injection H as <- _ _. apply good_nil.
   - destruct abort; [discriminate|].
     unfold bind in H. cbn [emit] in H.
